@@ -22,13 +22,18 @@
 (*                  documents publishes no segment (generations restart)   *)
 (*   GenFromTag     a new segment's generation is the handle's tag + 1     *)
 (***************************************************************************)
-EXTENDS IndexOps, TLC
+EXTENDS IndexOps, TLC, Json
 
 CONSTANTS IdSet, HandleSet, MaxCalls, EmptyCompactionDropsAll, GenFromTag
 
-VARIABLES segs, hstate, wal, abs, nver, nsid, ncalls
+VARIABLES segs, hstate, wal, abs, nver, nsid, ncalls,
+          hist      \* the calls made so far (ghost, hidden by VIEW): a counterexample of a mutated
+                    \* configuration is printed as a CASE line and replayed into the real code
 
-ivars == <<segs, hstate, wal, abs, nver, nsid, ncalls>>
+ivars == <<segs, hstate, wal, abs, nver, nsid, ncalls, hist>>
+
+IdStr(i) == IF i = 1 THEN "a" ELSE IF i = 2 THEN "b" ELSE "c"
+Call(rec) == hist' = Append(hist, rec)
 
 SeqToSetI(s) == {s[i] : i \in DOMAIN s}
 IdLess(x, y) == x < y            \* ids are small integers in this model
@@ -50,16 +55,25 @@ Init ==
   /\ wal = <<>>
   /\ abs = EmptyContents
   /\ nver = 1 /\ nsid = 1 /\ ncalls = 0
+  /\ hist = <<>>
 
 Tick == ncalls < MaxCalls /\ ncalls' = ncalls + 1
 
 NewWriter(h) ==
-  /\ Tick
+  /\ Tick /\ ~hstate[h].alive
+  /\ Call([op |-> "new_writer", h |-> h])
   /\ hstate' = [hstate EXCEPT ![h] = [alive |-> TRUE, pending |-> wal, cache |-> LoadLive, tag |-> MaxGen]]
+  /\ UNCHANGED <<segs, wal, abs, nver, nsid>>
+
+DropWriter(h) ==
+  /\ Tick /\ hstate[h].alive
+  /\ Call([op |-> "drop", h |-> h])
+  /\ hstate' = [hstate EXCEPT ![h] = Dead]
   /\ UNCHANGED <<segs, wal, abs, nver, nsid>>
 
 Add(h, id) ==
   /\ Tick /\ hstate[h].alive
+  /\ Call([op |-> "add", h |-> h, id |-> IdStr(id)])
   /\ wal' = Append(wal, AddOp(id, nver))
   /\ hstate' = [hstate EXCEPT ![h].pending = Append(@, AddOp(id, nver))]
   /\ nver' = nver + 1
@@ -67,6 +81,7 @@ Add(h, id) ==
 
 Delete(h, ids) ==
   /\ Tick /\ hstate[h].alive
+  /\ Call([op |-> "delete", h |-> h, ids |-> [k \in DOMAIN ids |-> IdStr(ids[k])]])
   /\ wal' = wal \o DelOps(ids)
   /\ hstate' = [hstate EXCEPT ![h].pending = @ \o DelOps(ids)]
   /\ UNCHANGED <<segs, abs, nver, nsid>>
@@ -90,6 +105,7 @@ SortedIds(S) == IF S = {} THEN <<>>
 
 Commit(h) ==
   /\ Tick /\ hstate[h].alive
+  /\ Call([op |-> "commit", h |-> h])
   /\ IF hstate[h].pending = <<>> THEN UNCHANGED <<segs, hstate, wal, abs, nsid>>
      ELSE LET live0 == IF MaxGen = hstate[h].tag THEN hstate[h].cache ELSE LoadLive
               r == FoldImpl(hstate[h].pending, [live |-> live0, tomb |-> {}, new |-> EmptyContents])
@@ -113,6 +129,7 @@ Commit(h) ==
 
 Rollback(h) ==
   /\ Tick /\ hstate[h].alive
+  /\ Call([op |-> "rollback", h |-> h])
   /\ hstate' = [hstate EXCEPT ![h].pending = <<>>]
   /\ wal' = <<>>
   /\ UNCHANGED <<segs, abs, nver, nsid>>
@@ -126,6 +143,7 @@ AllLive(ss) == IF ss = <<>> THEN <<>> ELSE LiveDocsOf(Head(ss), 1) \o AllLive(Ta
 
 Compact ==
   /\ Tick
+  /\ Call([op |-> "compact"])
   /\ IF Len(segs) <= 1 THEN UNCHANGED <<segs, nsid>>
      ELSE LET docs == AllLive(segs) IN
           /\ segs' = IF docs = <<>> /\ EmptyCompactionDropsAll THEN <<>>
@@ -134,7 +152,7 @@ Compact ==
   /\ UNCHANGED <<hstate, wal, abs, nver>>
 
 Next ==
-  \/ \E h \in HandleSet : NewWriter(h) \/ Commit(h) \/ Rollback(h)
+  \/ \E h \in HandleSet : NewWriter(h) \/ DropWriter(h) \/ Commit(h) \/ Rollback(h)
   \/ \E h \in HandleSet, id \in IdSet : Add(h, id) \/ Delete(h, <<id>>)
   \/ \E h \in HandleSet : Delete(h, SortedIds(IdSet))
   \/ Compact
@@ -143,6 +161,8 @@ Spec == Init /\ [][Next]_ivars
 
 OneCopy == \A x, y \in LiveSlots : x[1] = y[1] => x = y
 RefinesCore == OneCopy => Contents = abs
+(* same as OneCopy /\ RefinesCore, but prints the call history of the violating state first *)
+RefinesOrWitness == (OneCopy /\ Contents = abs) \/ (PrintT(<<"CASE", ToJson([ops |-> hist])>>) /\ FALSE)
 View == <<segs, hstate, wal, abs>>
 (* optional state constraint for the deep mutation configs: at most one queued operation *)
 SmallPending == Len(wal) <= 1 /\ \A h \in HandleSet : Len(hstate[h].pending) <= 1
